@@ -57,8 +57,11 @@ type sfObj struct {
 	terrArg  error
 	afterCls int // data calls that started after Close
 	duringCl int // in-flight data calls at the moment of Close
-	ctx      interface{ Done() <-chan struct{} }
-	ctxDone  bool
+	ctx      interface {
+		Done() <-chan struct{}
+		Err() error
+	}
+	ctxDone bool
 }
 
 type sfs struct {
@@ -75,12 +78,13 @@ type sfs struct {
 	faults map[string]map[int]error
 	counts map[string]int
 
-	listStyle int // 0: EOF with last entries; 1: EOF on following call; 2: short batches (tape); 3: exact fill then EOF
-	eofStyle  int // ReadAt at end: 0: (n, io.EOF); 1: (n, nil) when n>0, then (0, EOF)
+	listStyle  int  // 0: EOF with last entries; 1: EOF on following call; 2: short batches (tape); 3: exact fill then EOF
+	eofStyle   int  // ReadAt at end: 0: (n, io.EOF); 1: (n, nil) when n>0, then (0, EOF)
+	ignoreCtx  bool // handlers do not look at their request's context
 	partialErr bool // a failing ReadAt/WriteAt has moved some bytes before it fails: (n>0, err), as io.ReaderAt/io.WriterAt allow
-	shortRead bool
-	withClose bool // returned objects implement io.Closer
-	withTErr  bool // returned objects implement TransferError
+	shortRead  bool
+	withClose  bool // returned objects implement io.Closer
+	withTErr   bool // returned objects implement TransferError
 
 	realPathFn func(string) (string, error)
 	dotEntries bool // directory listings start with "." and ".."
@@ -123,6 +127,22 @@ func (fs *sfs) record(c sfCall) error {
 	}
 	fs.calls = append(fs.calls, c)
 	return err
+}
+
+// recordReq records a handler call and lets it fail as planned. Like a backend that honours the context it is given, the
+// call also fails when the request's context is already dead: the package documents that context as cancelled when the
+// handle is closed or the connection goes away - not while requests received earlier are still being served.
+func (fs *sfs) recordReq(method string, r *Request) error {
+	if err := fs.record(fs.reqCall(method, r)); err != nil {
+		return err
+	}
+	if !fs.ignoreCtx {
+		if err := r.Context().Err(); err != nil {
+			fs.sim.count("probe.handler_saw_dead_context")
+			return err
+		}
+	}
+	return nil
 }
 
 func (fs *sfs) reqCall(method string, r *Request) sfCall {
@@ -198,11 +218,27 @@ func (o *sfObj) leave() {
 	o.fs.mu.Unlock()
 }
 
+// ctxErr: a reader or writer that honours the context of the request that opened it.
+func (o *sfObj) ctxErr() error {
+	if o.ctx == nil || o.fs.ignoreCtx {
+		return nil
+	}
+	if err := o.ctx.Err(); err != nil {
+		o.fs.sim.count("probe.object_saw_dead_context")
+		return err
+	}
+	return nil
+}
+
 func (o *sfObj) readAt(b []byte, off int64) (int, error) {
 	fs := o.fs
 	o.enter()
 	defer o.leave()
 	fs.gate(false, fmt.Sprintf("readat:%03d:%08d:%06d", o.id, off, len(b)))
+	if err := o.ctxErr(); err != nil {
+		fs.record(sfCall{Method: "ReadAt", Obj: o.id, Off: off, N: len(b), Filepath: o.path})
+		return 0, err
+	}
 	if err := fs.record(sfCall{Method: "ReadAt", Obj: o.id, Off: off, N: len(b), Filepath: o.path}); err != nil {
 		if fs.partialErr && len(b) > 1 {
 			fs.mu.Lock()
@@ -245,6 +281,10 @@ func (o *sfObj) writeAt(b []byte, off int64) (int, error) {
 	o.enter()
 	defer o.leave()
 	fs.gate(false, fmt.Sprintf("writeat:%03d:%08d:%06d", o.id, off, len(b)))
+	if err := o.ctxErr(); err != nil {
+		fs.record(sfCall{Method: "WriteAt", Obj: o.id, Off: off, N: len(b), Filepath: o.path})
+		return 0, err
+	}
 	if err := fs.record(sfCall{Method: "WriteAt", Obj: o.id, Off: off, N: len(b), Filepath: o.path}); err != nil {
 		return 0, err
 	}
@@ -420,7 +460,7 @@ func (fs *sfs) children(dir string) []string {
 
 func (fs *sfs) fileread(r *Request) (io.ReaderAt, error) {
 	fs.gate(true, "fileread:"+r.Filepath)
-	if err := fs.record(fs.reqCall("Fileread", r)); err != nil {
+	if err := fs.recordReq("Fileread", r); err != nil {
 		return nil, err
 	}
 	fs.mu.Lock()
@@ -465,7 +505,7 @@ func (fs *sfs) openForWrite(r *Request) error {
 
 func (fs *sfs) filewrite(r *Request) (io.WriterAt, error) {
 	fs.gate(true, "filewrite:"+r.Filepath)
-	if err := fs.record(fs.reqCall("Filewrite", r)); err != nil {
+	if err := fs.recordReq("Filewrite", r); err != nil {
 		return nil, err
 	}
 	if err := fs.openForWrite(r); err != nil {
@@ -476,7 +516,7 @@ func (fs *sfs) filewrite(r *Request) (io.WriterAt, error) {
 
 func (fs *sfs) openfile(r *Request) (WriterAtReaderAt, error) {
 	fs.gate(true, "openfile:"+r.Filepath)
-	if err := fs.record(fs.reqCall("OpenFile", r)); err != nil {
+	if err := fs.recordReq("OpenFile", r); err != nil {
 		return nil, err
 	}
 	if err := fs.openForWrite(r); err != nil {
@@ -487,7 +527,7 @@ func (fs *sfs) openfile(r *Request) (WriterAtReaderAt, error) {
 
 func (fs *sfs) filecmd(method string, r *Request) error {
 	fs.gate(true, "filecmd:"+r.Method+":"+r.Filepath)
-	if err := fs.record(fs.reqCall(method, r)); err != nil {
+	if err := fs.recordReq(method, r); err != nil {
 		return err
 	}
 	fs.mu.Lock()
@@ -584,7 +624,7 @@ func (fs *sfs) filecmd(method string, r *Request) error {
 
 func (fs *sfs) statvfs(r *Request) (*StatVFS, error) {
 	fs.gate(true, "statvfs:"+r.Filepath)
-	if err := fs.record(fs.reqCall("StatVFS", r)); err != nil {
+	if err := fs.recordReq("StatVFS", r); err != nil {
 		return nil, err
 	}
 	return &StatVFS{Bsize: 4096, Frsize: 4096, Blocks: 1000, Bfree: 500, Bavail: 400, Files: 100, Ffree: 50, Favail: 40, Fsid: 7, Flag: 1, Namemax: 255}, nil
@@ -592,7 +632,7 @@ func (fs *sfs) statvfs(r *Request) (*StatVFS, error) {
 
 func (fs *sfs) filelist(method string, r *Request) (ListerAt, error) {
 	fs.gate(true, strings.ToLower(method)+":"+r.Method+":"+r.Filepath)
-	if err := fs.record(fs.reqCall(method, r)); err != nil {
+	if err := fs.recordReq(method, r); err != nil {
 		return nil, err
 	}
 	fs.mu.Lock()
